@@ -130,17 +130,16 @@ Section Learn.
   Definition network_flags (n : network) : list (option bool) := flat_map layer_flags (n_layers n).
 
   (* ---- validate ---- *)
-  (* the flag-clearing loop at the top of `validate`, with its `break` *)
+  (* the flag-clearing loop at the top of `validate`: every flag is cleared; `training` records
+     whether a dense layer was in training mode *)
   Fixpoint validate_clear (ls : list (layer N)) (training : bool) : list (layer N) * bool :=
     match ls with
     | [] => ([], training)
     | l :: rest =>
         match l with
         | LDense d =>
-            if d_training d && negb training then
-              let '(rest', t) := validate_clear rest true in
-              (layer_set_training false l :: rest', t)
-            else (ls, training)                   (* break *)
+            let '(rest', t) := validate_clear rest (d_training d || training) in
+            (layer_set_training false l :: rest', t)
         | LMaxpool _ => let '(rest', t) := validate_clear rest training in (l :: rest', t)
         | _ => let '(rest', t) := validate_clear rest training in
                (layer_set_training false l :: rest', t)
